@@ -46,6 +46,7 @@ type NodeCfg struct {
 	// DBs survive a Restart (they are "the disk").
 	AppDB, BlockDB, TxDB dbm.DB
 	HostedChainURL       string
+	GenesisJSON          string // raw exported app state; overrides Gen for the genesis content
 }
 
 type ValEntry struct {
@@ -86,6 +87,9 @@ var initOnce sync.Once
 // NewNode builds the application over the given DBs (fresh process state is the caller's responsibility: one node per process).
 func NewNode(cfg NodeCfg) *Node {
 	logger := log.NewNopLogger()
+	if os.Getenv("VERIF_LOG") == "1" { // error-level application log to stderr (kept in the child's output tail)
+		logger = log.NewFilter(log.NewTMLogger(log.NewSyncWriter(os.Stderr)), log.AllowError())
+	}
 	if cfg.AppDB == nil {
 		cfg.AppDB = dbm.NewMemDB()
 	}
@@ -127,7 +131,16 @@ func NewNode(cfg NodeCfg) *Node {
 	pocketTypes.InitClientBlockAllowance(10000)
 	sdk.InitCtxCache(20)
 	n := &Node{Cfg: cfg, TM: &stubTM{}}
-	app.GenState = BuildGenesis(cfg.Gen)
+	if cfg.GenesisJSON != "" {
+		// a chain started from an exported application state instead of a generated genesis
+		var gs app.GenesisState
+		if err := app.Codec().UnmarshalJSON([]byte(cfg.GenesisJSON), &gs); err != nil {
+			panic("cannot parse genesis json: " + err.Error())
+		}
+		app.GenState = gs
+	} else {
+		app.GenState = BuildGenesis(cfg.Gen)
+	}
 	n.App = app.NewPocketCoreApp(app.GenState, nil, n.TM, hb, logger, cfg.AppDB, cfg.Cache, 5000000, bam.SetPruning(store.PruneNothing))
 	n.BS = tmstore.NewBlockStore(cfg.BlockDB)
 	n.Idx = sdk.NewTransactionIndexer(cfg.TxDB)
